@@ -118,6 +118,13 @@ func (r *Replayer) build(pkgRel string) (string, error) {
 			return nil
 		}
 		rel, _ := filepath.Rel(r.HarnessDir, path)
+		// harness files placed inside library packages other than the one under test stay out of the native
+		// build: they may import each other's packages (client harness -> server) and close an import cycle
+		// through the library's own test files
+		dir := filepath.ToSlash(filepath.Dir(rel))
+		if dir != pkgRel && dir != "verifrt" && !strings.HasPrefix(dir, "zzverif/") {
+			return nil
+		}
 		replace[filepath.Join(r.Repo, rel)] = path
 		return nil
 	})
